@@ -511,12 +511,22 @@ def _report(v: core.Verdict, s, l, why):
 # ----------------------------------------------------------------------------- main
 
 
+# quick tier: on the synthetic / zero-order-input start models only the functions of the modules whose branches they open
+FOCUS = {
+    "syn_date": {"data"},
+    "syn_events": {"data", "odes"},
+    "syn_des": {"parameter_variability", "common", "odes", "error", "parameters"},
+    "pheno+zoi": {"parameter_variability", "common", "odes", "error", "parameters"},
+}
+
+
 def _tasks(tier: str, seed: int, plans, long_plans):
     import pharmpy.modeling as pm
 
     rng = random.Random(seed)
     corpus = list(M.CORPUS)
-    transformed = sorted(M.TRANSFORMED)
+    synthetic = list(M.SYNTHETIC)
+    transformed = sorted(k for k in M.TRANSFORMED if k not in FOCUS)
     rng.shuffle(transformed)
     tbases = transformed if tier == "thorough" else transformed[:2]
     skipped = dict(M.SKIP)
@@ -531,6 +541,7 @@ def _tasks(tier: str, seed: int, plans, long_plans):
             skipped[fname] = "no model argument"
             continue
         nfun += 1
+        module = fn.__module__.split(".")[-1]
         if fname in M.SPECIAL_VARIANTS:
             nv = M.SPECIAL_VARIANTS[fname]
         else:
@@ -544,17 +555,25 @@ def _tasks(tier: str, seed: int, plans, long_plans):
             vs = range(nv) if tier == "thorough" else [rng.randrange(nv)]
             for vi in vs:
                 tasks.append(("sweep", key, fname, vi))
+        for key, modules in FOCUS.items():
+            if tier == "thorough":
+                for vi in range(nv):
+                    tasks.append(("sweep", key, fname, vi))
+            elif module in modules:
+                for vi in range(min(nv, 2) if module in ("data", "parameter_variability") else 1):
+                    tasks.append(("sweep", key, fname, vi))
     # plans: singles are covered by the sweep; chains and siblings (length 2), sampled by seed in quick
     two = [p for p in plans if len(p) == 2]
     rng.shuffle(two)
     nplans = {"quick": 260, "thorough": len(two)}[tier]
+    allbases = corpus + transformed + list(FOCUS)
     ptasks = []
     for i, p in enumerate(two[:nplans]):
-        key = corpus[i % 2] if tier == "quick" or i % 3 else (transformed[i % len(transformed)])
+        key = corpus[i % 2] if tier == "quick" or i % 3 else allbases[i % len(allbases)]
         ptasks.append(("plan", key, p, i % 3 == 0))
     rng.shuffle(long_plans)
     for i, p in enumerate(long_plans[:3000]):
-        ptasks.append(("plan", (corpus + transformed)[i % (2 + len(transformed))], p, i % 4 == 0))
+        ptasks.append(("plan", allbases[i % len(allbases)], p, i % 4 == 0))
     ztasks = [("zoo", i) for i in range(18)]
     return tasks, ptasks, ztasks, skipped, nfun
 
@@ -575,6 +594,7 @@ def main(tier: str, seed: int) -> int:
     import pharmpy.model  # noqa: F401
 
     t0 = time.time()
+    syn = M.write_synthetic(core.scratch(f"c06syn{_RUN}"))
     box: dict = {}
     th = threading.Thread(target=_explore, args=(tier, v, box))
     th.start()
@@ -585,6 +605,7 @@ def main(tier: str, seed: int) -> int:
     results = core.pmap(_dispatch, work, procs=14, chunk=4)
     for dname in core.WORK.glob(f"c06tmp{_RUN}-*"):
         shutil.rmtree(dname, ignore_errors=True)
+    shutil.rmtree(syn, ignore_errors=True)
     t_run = time.time() - t0
     fatal = [r for r in results if r.get("fatal")]
     if fatal:
@@ -646,6 +667,7 @@ def replay(path: str) -> int:
     data = json.loads(open(path).read())
     case = data["case"]
     print(json.dumps(case, indent=1)[:1500])
+    syn = M.write_synthetic(core.scratch(f"c06syn{_RUN}"))
     if case.get("session") == "sweep":
         r = sweep_task((case["base"], case["function"], case.get("variant", 0)))
     elif case.get("session") == "plan":
@@ -661,6 +683,7 @@ def replay(path: str) -> int:
             return 2
     for dname in core.WORK.glob(f"c06tmp{_RUN}-*"):
         shutil.rmtree(dname, ignore_errors=True)
+    shutil.rmtree(syn, ignore_errors=True)
     if "trace" not in r:
         print("session could not be rebuilt:", r)
         return 2
